@@ -275,6 +275,57 @@ Inductive subseq {A} : list A -> list A -> Prop :=
 | sub_take : forall a l1 l2, subseq l1 l2 -> subseq (a :: l1) (a :: l2)
 | sub_skip : forall a l1 l2, subseq l1 l2 -> subseq l1 (a :: l2).
 
+(* Part 3b.  The same ring with Set at the granularity of its three atomic operations (many_to_one.go, Set):
+     writeIndex := atomic.AddUint64(&d.writeIndex, 1)            WIdle   -> WGot seq
+     old := atomic.LoadPointer(&d.buffer[idx]); if old is a NEWER bucket (seq > writeIndex - len): collision, retry
+                                                                  WGot    -> WLoaded seq old | WIdle
+     CompareAndSwapPointer(&d.buffer[idx], old, new); on failure: collision, retry with the next sequence number
+                                                                  WLoaded -> WIdle (message sent, or still pending)
+   Buckets are compared by sequence number (every bucket has its own).  TryNext is one atomic swap: [rtry]. *)
+Inductive wpc := WIdle | WGot (seq : nat) | WLoaded (seq : nat) (old : option (nat * msg)).
+Record mring := mkMRing {
+  mbase : ring;
+  wpcs  : tid -> wpc;
+  wmsgs : tid -> list msg                 (* what each producer still has to send, head = current *)
+}.
+Definition bucket_eqb (a b : option (nat * msg)) : bool :=
+  match a, b with
+  | None, None => true
+  | Some (s, _), Some (s', _) => Nat.eqb s s'
+  | _, _ => false
+  end.
+Definition with_slots (g : ring) sl sent w := mkRing (rn g) w (rr g) sl sent (rdeliv g) (ralerts g).
+Inductive mev := MW (t : tid) | MR.
+Definition mrstep (m : mring) (e : mev) : mring :=
+  match e with
+  | MR => mkMRing (fst (rtry (mbase m))) (wpcs m) (wmsgs m)
+  | MW t =>
+      let g := mbase m in
+      match wpcs m t, wmsgs m t with
+      | _, [] => m
+      | WIdle, _ :: _ =>
+          mkMRing (with_slots g (slots g) (rsent g) (S (rw g))) (upd (wpcs m) t (WGot (rw g))) (wmsgs m)
+      | WGot seq, _ :: _ =>
+          let old := slots g (seq mod rn g) in
+          let newer := match old with
+                       | Some (s, _) => Nat.leb (rn g) seq && Nat.ltb (seq - rn g) s
+                       | None => false
+                       end in
+          mkMRing g (upd (wpcs m) t (if newer then WIdle else WLoaded seq old)) (wmsgs m)
+      | WLoaded seq old, x :: r =>
+          if bucket_eqb (slots g (seq mod rn g)) old
+          then mkMRing (with_slots g (upd (slots g) (seq mod rn g) (Some (seq, x))) (rsent g ++ [x]) (rw g))
+                       (upd (wpcs m) t WIdle) (upd (wmsgs m) t r)
+          else mkMRing g (upd (wpcs m) t WIdle) (wmsgs m)
+      end
+  end.
+Definition mrrun (m : mring) (es : list mev) : mring := fold_left mrstep es m.
+Definition mrinit (n : nat) (P : list (list msg)) : mring :=
+  mkMRing (rinit n) (fun _ => WIdle) (fun t => nth t P []).
+(* every producer has sent everything and is outside Set *)
+Definition mrquiet (nthreads : nat) (m : mring) : bool :=
+  forallb (fun t => match wpcs m t, wmsgs m t with WIdle, [] => true | _, _ => false end) (seq 0 nthreads).
+
 (* Scripted runs (correspondence): the harness holds the reader goroutine inside the slow writer's Write ("gate").
    SSet x  = one producer performs Write(x) (-> Set); if the reader is waiting for data it takes at once.
    SRelease = the Write in progress is allowed to return; the reader then calls Next again. *)
